@@ -147,6 +147,7 @@ fn main() {
                 nshards,
                 stride: args.num("stride", 1),
                 emit_known: args.flag("emit-known"),
+                targeted: args.flag("targeted"),
             };
             let sel = args.str("flavours", "sync");
             if sel == "sync" || sel == "sync_digraph" {
